@@ -369,6 +369,33 @@ func vC14Sys(c *vCtx, cfg vVecCfg) *vKindSys {
 	return s
 }
 
+// vC14AliasSys: the caller hands the very slices it trained on to Add (as C13's aliasing
+// mode), on a training set of three distinct non-unit vectors with heavy duplication - the
+// coarse k-means starts from identical centroids, so empty clusters arise - under cosine,
+// where Add normalises its argument in place.
+func vC14AliasSys(c *vCtx, cfg vVecCfg) *vKindSys {
+	base := [][]float32{{3, 4}, {1, 0}, {0, 2}, {3, 4}, {1, 0}, {1, 0}, {0, 2}, {1, 0}, {1, 0}, {0, 2}}
+	var train [][]float32
+	for r := 0; r < 3; r++ {
+		for _, b := range base {
+			v := make([]float32, cfg.Dim)
+			for j := range v {
+				v[j] = b[j%2] * float32(1+j/2)
+			}
+			train = append(train, v)
+		}
+	}
+	s := newKindSys(c, cfg, 3)
+	s.train = train
+	s.vals = train[:10]
+	s.aliasTrain = true
+	s.cfgS = cfg.String() + " alias"
+	s.hook = vC14Hook
+	s.noMulti = true
+	s.noPrepared = true
+	return s
+}
+
 func vC14Accepted(cfg vVecCfg) bool {
 	var err error
 	if cfg.Kind == "pq" {
@@ -410,6 +437,10 @@ func init() {
 					vBFS(c, vC14Sys(c, cfg), d)
 				}})
 			}
+			for _, cfg := range []vVecCfg{{Kind: "ivfpq", Metric: Cosine, Dim: 2, NList: 3, M: 1, NBits: 1, Train: -2}, {Kind: "ivfpq", Metric: Cosine, Dim: 4, NList: 2, M: 2, NBits: 2, Train: -2}, {Kind: "pq", Metric: Cosine, Dim: 2, M: 2, NBits: 1, Train: -2}, {Kind: "ivfpq", Metric: Euclidean, Dim: 2, NList: 3, M: 2, NBits: 1, Train: -2}} {
+				cfg := cfg
+				sh = append(sh, vShard{Name: "alias/" + strings.ReplaceAll(cfg.String(), " ", ","), Run: func(c *vCtx) { vBFS(c, vC14AliasSys(c, cfg), 4) }})
+			}
 			// affine transforms of the data (zz_verif_vec.go): scaled by 2^-20, 2^-40, 2^20,
 			// shifted by 4096, 2^20, 20000
 			for _, cfg := range []vVecCfg{{Kind: "pq", Metric: Euclidean, Dim: 2, M: 2, NBits: 2, Train: -2}, {Kind: "pq", Metric: L2Squared, Dim: 4, M: 2, NBits: 4, Train: -2},
@@ -440,6 +471,11 @@ func init() {
 				var n int
 				fmt.Sscanf(v.Config[i:], " large n=%d", &n)
 				vKindLarge(c, vParseVecCfg(v.Config[:i]), []int{n}, vC14Hook)
+				_, ok := c.viol[v.Sig()]
+				return ok
+			}
+			if strings.HasSuffix(v.Config, " alias") {
+				vReplayHist(vC14AliasSys(c, vParseVecCfg(v.Config)), v.History)
 				_, ok := c.viol[v.Sig()]
 				return ok
 			}
